@@ -110,7 +110,17 @@ def gen_points(g, d, b, style):
     if b > 1 and r.random() < 0.3:
         for i in range(d):
             x[i][0] = m[i]            # one column exactly at the mean: quadratic form 0
+    if b > 1 and r.random() < 0.25:
+        j = r.randrange(1, b)         # near-duplicate columns: equal, or equal up to a relative 1e-9
+        eps = r.choice([0.0, 1e-9])
+        for i in range(d):
+            x[i][j] = x[i][j - 1] * (1 + eps)
     return x, m
+
+
+def batch_size(r):
+    """1..5 mostly; exactly 2; 16 / 17 / 33 columns (vectorised code paths and their tails)"""
+    return r.choice([1, 2, 2, 3, 4, 5, r.randint(1, 5), 16, 17, 33])
 
 
 def gen_ld(g, tier, idx):
@@ -118,15 +128,15 @@ def gen_ld(g, tier, idx):
     big = 6 if tier == "quick" else 8
     style = r.choice(["dyadic", "full", "full", "illcond", "illcond", "scalar", "bigmag", "tinydet", "hugedet"])
     d = 1 if style == "scalar" else (idx % big + 1 if idx < 2 * big else r.randint(1, big))
-    b = r.randint(1, 5)
+    b = batch_size(r)
     if style == "dyadic":
         S = g.spd_dyadic(d)
     elif style == "illcond":
         S = g.spd(d, cond=10 ** r.uniform(4, 6))
     elif style == "tinydet":
-        S = g.spd(d, cond=10 ** r.uniform(0, 3), scale=10 ** r.uniform(-8, -4))
+        S = g.spd(d, cond=10 ** r.uniform(0, 3), scale=10 ** r.uniform(-10, -4))
     elif style == "hugedet":
-        S = g.spd(d, cond=10 ** r.uniform(0, 3), scale=10 ** r.uniform(4, 8))
+        S = g.spd(d, cond=10 ** r.uniform(0, 3), scale=10 ** r.uniform(4, 10))
     else:
         S = g.spd(d)
     x, m = gen_points(g, d, b, style)
@@ -145,15 +155,21 @@ def gen_uvr(g, tier, idx):
     r = g.r
     big = 6 if tier == "quick" else 8
     for _attempt in range(50):
-        style = r.choice(["dyadic", "full", "full", "VeqUt", "kwide", "dominantUV", "indefW", "illR", "isoR"])
-        d = idx % big + 1 if idx < 3 * big else r.randint(1, big)
-        divs = divisors(d)
-        enc = idx % 2 if idx < 3 * big else r.randint(0, 1)
-        proper = [v for v in divs if v < d]
-        bs = r.choice(proper) if (proper and r.random() < 0.7) else r.choice(divs + [1, d])
+        style = r.choice(["dyadic", "full", "full", "VeqUt", "kwide", "dominantUV", "indefW", "illR", "isoR", "scaled"])
+        # every (dimension, block size dividing it, encoding) triple first, then random ones
+        triples = [(dd, v, e) for dd in range(1, big + 1) for v in divisors(dd) for e in (0, 1)]
+        if idx < len(triples):
+            d, bs, enc = triples[idx]
+        else:
+            d = r.randint(1, big)
+            divs = divisors(d)
+            enc = r.randint(0, 1)
+            proper = [v for v in divs if v < d]
+            bs = r.choice(proper) if (proper and r.random() < 0.7) else r.choice(divs + [1, d])
         nb = d // bs
         k = r.randint(d + 1, d + 3) if style == "kwide" else r.randint(1, max(1, d + 1))
-        b = r.randint(1, 5)
+        b = batch_size(r)
+        unit = 10 ** r.uniform(-5, 5) if style == "scaled" else 1.0      # S scales by unit^2 (1e-10 .. 1e10), the points by unit
         nblk = 1 if enc == 0 else nb
         if style == "dyadic":
             blocks = [g.spd_dyadic(bs, 3) for _ in range(nblk)]
@@ -181,6 +197,9 @@ def gen_uvr(g, tier, idx):
                 W = [[w * 0.05 for w in row] for row in W]
             else:
                 W = g.spd(k, cond=10 ** r.uniform(0, 2), scale=10 ** r.uniform(-1, 1))
+        if unit != 1.0:
+            U = [[v * unit for v in row] for row in U]
+            blocks = [[[v * unit * unit for v in row] for row in blk] for blk in blocks]
         V = vlib.mmul(W, vlib.mT(U))          # general V = W U^T (V = U^T only for style VeqUt)
         Rfull = [[Fraction(0)] * d for _ in range(d)]
         for i in range(nb):
@@ -200,7 +219,8 @@ def gen_uvr(g, tier, idx):
         x, m = gen_points(g, d, b, "dyadic" if style == "dyadic" else "full")
         s = math.sqrt(max(Sf[i][i] for i in range(d)))
         if style != "dyadic":
-            x = [[m[i] + (x[i][c] - m[i]) * s for c in range(b)] for i in range(d)]
+            m = [v * unit for v in m]
+            x = [[m[i] + (x[i][c] * unit - m[i]) * (s / unit if unit != 1.0 else s) for c in range(b)] for i in range(d)]
         Rtok = vlib.fmt_mat_cm(blocks[0]) if enc == 0 else [hexd(blocks[i][a][c]) for i in range(nb) for c in range(bs) for a in range(bs)]
         toks = ["uvr", str(nb), str(bs), str(k), str(b), str(enc)] + vlib.fmt_mat_cm(x) + [hexd(v) for v in m] \
             + vlib.fmt_mat_cm(U) + vlib.fmt_mat_cm(V) + Rtok
@@ -212,7 +232,7 @@ def gen_lse(g, tier, idx):
     r = g.r
     big = 8 if tier == "quick" else 40
     style = r.choice(["moderate", "huge", "spread", "neginf", "neginf", "equal", "single", "negbig", "posbig", "lonelyfinite", "mixed", "matrix"])
-    n = 1 if style == "single" else (idx % big + 1 if idx < big else r.randint(1, big))
+    n = 1 if style == "single" else (idx % big + 1 if idx < big else r.choice([r.randint(1, big), r.randint(1, big), 2, 16, 17, 33]))
     if style == "moderate":
         x = [r.uniform(-30, 30) for _ in range(n)]
     elif style == "huge":
@@ -487,6 +507,12 @@ def check_lse(line, meta, outs, stats):
         probs.append(("prop", "lse-not-finite", "log_sum_exp returned %r for entries with a finite one among them (overflow/underflow): exact value %.17g" % (val, fstar)))
     elif err > tol:
         probs.append(("prop", "lse-wrong", "log_sum_exp = %.17g, log(sum(exp(x))) = %.17g (tol %.3g)" % (val, fstar, tol)))
+    # subtracting it normalises: sum exp(x_i - LSE) = 1 (theorem lse_normalizes), evaluated with the implementation's value
+    if math.isfinite(val):
+        tot = math.fsum(math.exp(v - val) for v in x if v != -math.inf and v - val < 700)
+        tol_n = 8 * (n * EPS + EPS * (abs(mx) + abs(val))) + 2 * tol
+        if not (abs(tot - 1.0) <= tol_n):
+            probs.append(("prop", "lse-not-normalising", "sum exp(x_i - log_sum_exp(x)) = %.17g, not 1 (tol %.3g)" % (tot, tol_n)))
     # commutes with adding a constant
     hs = outs.get("hshift")
     if hs is not None:
@@ -521,6 +547,21 @@ def check_lse(line, meta, outs, stats):
 
 
 # ----------------------------------------------------------------------------- run
+
+def run_harness_confirmed(binary, lines):
+    """run the harness; a case that ended in a crash is run once more on its own, and only a crash that
+    repeats counts (a real crash is deterministic; a sanitizer run-time failure under machine load is not)"""
+    hout, logs = vlib.run_harness(binary, lines)
+    retried = 0
+    for i, h in enumerate(hout):
+        if h.startswith("crash") or " crash:" in h:
+            retried += 1
+            h2, l2 = vlib.run_harness(binary, [lines[i]])
+            if h2 and not (h2[0].startswith("crash") or " crash:" in h2[0]):
+                hout[i] = h2[0]
+                logs.pop(i, None)
+    return hout, logs, retried
+
 
 def guarded(fn, line, hout, *args):
     """a malformed / short / non-numeric output is a finding about this case (with its input), never a crash of the check"""
@@ -579,7 +620,7 @@ def run(ctx):
                 ent["hmat"] = len(hlines)
                 hlines.append(" ".join(["lsem", str(meta["shape"][0]), str(meta["shape"][1])] + t[2:]))
             index.append(ent)
-    hout, logs = vlib.run_harness(binary, hlines)
+    hout, logs, retried = run_harness_confirmed(binary, hlines)
     dout = run_driver_parallel(dlines)
 
     stats, hist, branch = {}, {}, {}
@@ -651,7 +692,7 @@ def run(ctx):
         "style_histogram": hist, "branch_histogram": branch, "numeric": stats,
         "traces_validated_against_impl": len(cases),
         "model_vs_impl_disagreements": len(corr_bad), "property_failures_on_impl": len(prop_bad),
-        "sanitizer_crashes": len(logs),
+        "sanitizer_crashes": len(logs), "crashed_cases_rerun_individually": retried,
     })
     ctx.assumptions += [
         "inverse routine contract InvOK certified exactly (A X = 1 and X A = 1 over Q) on every inverse the exact model run takes",
